@@ -278,6 +278,8 @@ def run(ctx):
     sym = [r_ for r_ in cg.returns() if isinstance(r_.value, ast.Call) and dotted(r_.value.func) == '_symmetrize_correlograms']
     ctx.check(bool(sym) and any(isinstance(x, ast.If) and unparse(x.test) == 'symmetrize' for x in cg.ancestors(sym[0])), 'C15.D1', cg, sym[0] if sym else 'return',
               'the symmetrised array is returned when requested, the one-sided one otherwise', 'symmetrize does not select between the symmetrised and the one-sided result')
+    from obligations.shape_tables import check_index_of
+    check_index_of(ctx, 'C15.D1')
     # ---- A1
     a1_symmetrize(ctx)
     # ---- U2 firing rate
